@@ -23,6 +23,12 @@ marker per 1000 iterations must not execute more iterations in total than the bu
 `testrun` (src/verif_runner.rs) under small limits must end with `env.ticks ≤ limit + #tests` and agree with the
 runner model `testrun_model` (Props/C25 `tests_one_budget`) on verdicts, tick count and trace.
 
+One tick, unbounded work: every built-in arm with an Int parameter / receiver, the Int functions of the prelude and
+`**` are called ONCE per sandboxed process with huge index / count arguments (10^10 … i64::MAX) on small receivers,
+through both entry points, under a 10 s bound (one retry at 60 s): a timeout is `C25/timeout/builtin/<Arm>` — the
+tick limit is checked once per evaluator iteration, so a single call whose work grows with the magnitude of an
+Int (not with the size of a value) cannot be stopped by it.
+
 What the model cannot exhibit, and what this check therefore records as findings with fixed probes
 (DESIGN §9): the cost of ONE tick is not bounded — (a) heap: `s = s ^ s` doubles a string per iteration,
 the process is still copying after the timeout and aborts on allocation failure (rc 134) well inside the tick
@@ -337,6 +343,9 @@ def _run(ctx, rng, d):
     ctx.sample({"entry": "playground-run", "src": cases[0][1] + cases[0][2], "expected": cases[0][3]})
     ctx.sample({"entry": "sandboxed-test", "src": cases[3][1] + "test t { " + cases[3][2] + " }"})
 
+    # ---------------------------------------------------------------- one tick, unbounded work
+    one_tick_work(ctx, rng, d)
+
     # ---------------------------------------------------------------- files with many tests: ONE budget per run
     multi_tests(ctx, rng, d, L, D)
 
@@ -370,6 +379,98 @@ def _run(ctx, rng, d):
         "Tables.builtinArms blocks",
         "sandboxed-test: every `test` shares one Env, ticks are cumulative over the tests of a file",
     ]
+
+
+HUGE = [10 ** 10, 2 ** 40, 2 ** 63 - 2, 2 ** 63 - 1, -(10 ** 10), -(2 ** 63)]
+SMALL = [0, 1, 2]
+
+
+def one_tick_work(ctx, rng, d):
+    """The tick limit (and the interrupt flag) is checked once per evaluator iteration, so ONE built-in call must do
+    work bounded by the size of its arguments' VALUES, never by the magnitude of an Int argument. Every built-in arm
+    with an Int parameter or an Int receiver (Tables.builtinArms), the prelude functions over Ints written in Garden,
+    and `**`, are called ONCE per sandboxed process with huge index / count arguments (10^10, 2^40, i64::MAX-1,
+    i64::MAX, and negatives) on small receivers, through both entry points, under a wall-clock bound."""
+    from . import c02 as C02
+    arms = C02.BS_tables()["builtinArms"]
+    recv_of = {"String": ['"abc"', '"hé✓🙂"'], "List": ["[1, 2, 3]", "[]"], "Int": [str(v) for v in HUGE[:4]],
+               "Float": ["10000000000.5"], "Dict": ['Dict["a" => 1]']}
+    calls = []     # (arm name, expression)
+
+    def int_tuples(k):
+        import itertools
+        out = [t for t in itertools.product(HUGE + SMALL, repeat=k) if any(abs(v) >= 10 ** 10 for v in t)]
+        # the 'to the end' idiom first: small start, huge end
+        out.sort(key=lambda t: (0 if (k >= 2 and t[0] in SMALL and t[-1] >= 10 ** 10) else 1))
+        return out
+    for arm in arms:
+        params = arm["params"]
+        int_pos = [j for j, ty in enumerate(params) if ty == "Int"]
+        if arm["effects"] or arm["namespaceFile"] not in ("__prelude.gdn",):
+            continue
+        if not int_pos and not (arm["isMethod"] and arm["receiverType"] in ("Int", "Float")):
+            continue
+        filler = {"String": '"a"', "T": "1", "List<String>": '["a"]'}
+        tuples = int_tuples(len(int_pos)) if int_pos else [()]
+        keep = tuples[:10] + rng.sample(tuples[10:], min(len(tuples) - 10, ctx.scale(6, 60))) if len(tuples) > 10 else tuples
+        for t in keep:
+            args = [filler.get(ty, "1") for ty in params]
+            for j, v in zip(int_pos, t):
+                args[j] = str(v)
+            if arm["isMethod"]:
+                for r in recv_of.get(arm["receiverType"], ['"abc"'])[:ctx.scale(2, 4)]:
+                    rr = "(%s)" % r if r.startswith("-") else r
+                    calls.append((arm["name"], "%s.%s(%s)" % (rr, arm["gardenName"], ", ".join(args))))
+            else:
+                calls.append((arm["name"], "%s(%s)" % (arm["gardenName"], ", ".join(args))))
+    # Int functions written in Garden (ticked) and the power operator
+    for a, b in [(0, 10 ** 10), (-(2 ** 63), 2 ** 63 - 1), (2 ** 63 - 2, 2 ** 63 - 1), (10 ** 10, 0)]:
+        calls.append(("prelude:range", "range(%d, %d)" % (a, b)))
+    calls += [("prelude:max", "max(%d, %d)" % (2 ** 63 - 1, 10 ** 10)), ("prelude:min", "min(%d, %d)" % (-(2 ** 63), 2 ** 40)),
+              ("op:pow", "1 ** 4294967295"), ("op:pow", "(-1) ** 4294967295"), ("op:pow", "2 ** 10000000000"),
+              ("op:pow", "0 ** %d" % (2 ** 63 - 1)), ("op:mul", "%d * %d" % (2 ** 63 - 1, 2 ** 63 - 1))]
+    jobs = []
+    for ix, (arm, call) in enumerate(calls):
+        jobs.append(("playground-run", ix, arm, call))
+        if ix % 2 == 0 or not ctx.quick():
+            jobs.append(("sandboxed-test", ix, arm, call))
+
+    def do(job):
+        entry, ix, arm, call = job
+        if entry == "playground-run":
+            src = "let r = %s\nr\n" % call
+            path = os.path.join(d, "w%d.gdn" % ix)
+            args = ["playground-run", path]
+        else:
+            src = "fun helper() {}\ntest t { let r = %s r }\n" % call
+            path = os.path.join(d, "wt%d.gdn" % ix)
+            args = ["sandboxed-test", path, "0"]
+        with open(path, "w") as fh:
+            fh.write(src)
+        r = ctx.garden(args, timeout=10, cwd=d, env={"RUST_BACKTRACE": "0"})
+        if r[0] == -9999:     # loaded machine: once more with a long bound before calling it a hang
+            r = ctx.garden(args, timeout=60, cwd=d, env={"RUST_BACKTRACE": "0"})
+        return job, src, r
+    hist = {}
+    for (entry, ix, arm, call), src, (rc, so, se) in common.pmap(do, jobs, workers=max(4, common.NPROC // 2)):
+        ctx.case((entry, "one-tick", call), True)
+        hist[arm] = hist.get(arm, 0) + 1
+        if rc == -9999:
+            ctx.fail("C25/timeout/builtin/%s" % arm,
+                     "ONE call `%s` in a sandboxed run (%s) did not end within 60 s: the work of a single evaluator tick "
+                     "grows with the magnitude of an Int argument, so neither the tick limit nor an interrupt can stop it"
+                     % (call, entry), src=src, entry=entry, call=call)
+        elif rc != 0:
+            ctx.fail("C25/crash/builtin/%s" % arm, "`%s` (%s): exit status %d: %s" % (call, entry, rc, (se or "").strip()[-200:]),
+                     src=src, entry=entry, call=call)
+        else:
+            lines = [l for l in so.strip().split("\n") if l.strip()]
+            try:
+                json.loads(lines[-1])
+            except Exception:
+                ctx.fail("C25/no-answer/builtin/%s" % arm, "`%s` (%s): no JSON answer: %r" % (call, entry, so[-200:]), src=src)
+    ctx.cov["one_tick_calls_per_arm"] = hist
+    ctx.log("one-tick stream: %d calls, %d processes" % (len(calls), len(jobs)))
 
 
 MARK_TICKS = 5000      # one marker = 1000 loop iterations of >= 5 ticks each (in fact about 14)
